@@ -9,7 +9,7 @@ from common import rng_for, close, TAU2, frac
 
 RULE = ("continua from VERIF_SEED of sizes up to 2x60, 3x15, 4x7, 5x5 units (smaller in quick) x dissimilarities (positional, combined with absolute / "
         "precomputed / ordinal categorical part) x transformations: bijective annotator renaming that changes the sort order, translation by a "
-        "grid constant (both signs), scaling by 2, 4, 1/2, 3, 5, category renaming (arbitrary bijection for absolute, order-preserving for table / "
+        "grid constant (both signs), scaling by 2, 4, 1/2, 3, 5, category renaming (arbitrary bijection for absolute - also on continua mixing labelled and unlabelled units -, order-preserving for table / "
         "ordinal), delta_empty x {1/2, 2, 4} in all components (disorder must scale, seeded gamma must not move); best-alignment disorders "
         "compared within 2^-15 relative; non-trivial = original disorder > 0 and at least 10 units; distinct by (continuum, dissimilarity, transformation)")
 TRUSTED_BASE = ["Coq 8.16.1 kernel (theorems of props/C09.v)", "harness/{common,gen,c09}.py", "the MIP solver's optimum is compared with itself on the transformed input"]
@@ -17,7 +17,7 @@ ASSUMPTIONS = ["transformations keep inputs exactly representable in float32 (gr
 
 
 def transform_units(units, f):
-    return [sorted(f(s, e, l) for (s, e, l) in us) for us in units]
+    return [sorted((f(s, e, l) for (s, e, l) in us), key=lambda t: (t[0], t[1], t[2] is not None, t[2] or "")) for us in units]
 
 
 def build(pa, units, names=None):
@@ -64,8 +64,13 @@ def run(rep, tier, seed, pa):
         n, k = shapes[ci % len(shapes)]
         pattern = rng.choice(["perturbed", "random", "disjoint", "intgrid", "staircase", "staircase"])
         sizes = [rng.randrange(max(1, k - 3), k + 1) for _ in range(n)]
-        units = gen.gen_units(rng, n, sizes, pattern, labels)
         kind = rng.choice(["pos", "abs", "abs", "pre", "ord"])
+        # continua mixing labelled and unlabelled units (only where the dissimilarity has no category table): an unlabelled unit must not
+        # be confused with any label, whatever the labels are called
+        unl = 0.35 if kind in ("pos", "abs") and ci % 3 == 0 else False
+        units = gen.gen_units(rng, n, sizes, pattern, labels, unl)
+        if unl:
+            rep.count("mixed_unlabelled")
         alpha, beta = rng.choice([0.5, 1.0, 3.0]), rng.choice([0.5, 1.0, 3.0])
         de = rng.choice([0.5, 1.0, 2.0])
         mk = mk_dissim(kind, alpha, beta, de, labels)
@@ -90,6 +95,7 @@ def run(rep, tier, seed, pa):
         # 4. category renaming
         if kind == "abs":
             ren = dict(zip(labels, rng.sample(["zz", "B", "k9", "Aa", "m"], 3)))
+            ren[None] = None
             results.append(("rename-categories-arbitrary", disorder(pa, transform_units(units, lambda s, e, l: (s, e, ren[l])), None, mk=mk), base))
         elif kind in ("pre", "ord"):
             ren = dict(zip(sorted(labels), ["b1", "b2", "c0"]))
